@@ -290,10 +290,12 @@ PnmsgViol(r) ==
 (* C19: ok => the value could have been built through the checked constructors;             *)
 (*      the natural representation of a valid value deserializes to an equal value.         *)
 SerdeViol(r) ==
-    CASE r[1] = 0 ->        \* [0,T,form,cls,v,ok,res]; form 0 = JSON integer
+    CASE r[1] = 0 ->        \* [0,T,form,cls,v,ok,res]; form 0 = JSON integer; forms >= 10: the other data
+                            \* formats of tree_de.rs (10 + 10 * way + {0 number, 1 byte string, 2 string, 3 [n]})
            (IF r[6] = -2 THEN {<<"C19", "deserialize-panics">>} ELSE {})
            \cup (IF r[6] = 1 /\ ~InRange(r[2], r[7]) THEN {<<"C19", "int-out-of-range-accepted">>} ELSE {})
-           \cup (IF r[6] = 1 /\ r[3] = 0 /\ ~(r[4] = 0 /\ r[7] = r[5]) THEN {<<"C19", "int-value-changed">>} ELSE {})
+           \cup (IF r[6] = 1 /\ (r[3] = 0 \/ (r[3] >= 10 /\ r[3] % 10 = 0)) /\ ~(r[4] = 0 /\ r[7] = r[5])
+                 THEN {<<"C19", "int-value-changed">>} ELSE {})
            \cup (IF r[3] = 0 /\ TryOk(r[2], r[4], r[5]) /\ r[6] # 1 THEN {<<"C19", "int-valid-rejected">>} ELSE {})
       [] r[1] = 1 ->        \* [1,T,src,cls,v,ok,res]; serde primitive value deserializers
            (IF r[6] = -2 THEN {<<"C19", "deserialize-panics">>} ELSE {})
@@ -301,12 +303,13 @@ SerdeViol(r) ==
            \* demanded only for the NATURAL primitive of the type (what Serialize emits): u8, or u16 for U14
            \cup (IF r[3] = (IF r[2] = 2 THEN 2 ELSE 0) /\ TryOk(r[2], r[4], r[5]) /\ r[6] # 1
                  THEN {<<"C19", "int-valid-rejected">>} ELSE {})
-      [] r[1] = 2 ->        \* RawShortMessage from [s,d1,d2]
+      [] r[1] \in {2, 12} ->   \* RawShortMessage from [s,d1,d2] (12: other data formats / byte strings - soundness and
+                               \* value fidelity only)
            IF r[2] = -9 THEN (IF r[5] = -2 THEN {<<"C19", "deserialize-panics">>} ELSE {})
            ELSE LET valid == ValidStatus(r[2]) /\ r[3] \in 0..127 /\ r[4] \in 0..127 IN
                 (IF r[5] = -2 THEN {<<"C19", "deserialize-panics">>} ELSE {})
                 \cup (IF r[5] = 1 /\ ~valid THEN {<<"C19", "raw-invalid-accepted">>} ELSE {})
-                \cup (IF valid /\ r[5] # 1 THEN {<<"C19", "raw-valid-rejected">>} ELSE {})
+                \cup (IF r[1] = 2 /\ valid /\ r[5] # 1 THEN {<<"C19", "raw-valid-rejected">>} ELSE {})
                 \cup (IF valid /\ r[5] = 1 /\ ~(<<r[6], r[7], r[8]>> = <<r[2], r[3], r[4]>> /\ r[9] = TypeOf(r[2]))
                       THEN {<<"C19", "raw-value-changed">>} ELSE {})
                 \cup (IF r[5] = 1 /\ (r[9] = -2 \/ r[10] = -2) THEN {<<"C19", "raw-accessor-panics-after-deserialize">>} ELSE {})
@@ -327,11 +330,11 @@ SerdeViol(r) ==
            \cup (IF r[1] = 4 /\ valid /\ r[8] # 1 THEN {<<"C19", "pn-valid-rejected">>} ELSE {})
            \cup (IF r[8] = 1 /\ ~(r[15] \in 0..127) THEN {<<"C19", "pn-encoder-fails-after-deserialize">>} ELSE {})
            \cup (IF valid /\ r[8] = 1 /\ Sub(r, 9, 6) # msg THEN {<<"C19", "pn-value-changed">>} ELSE {})
-      [] r[1] = 5 ->        \* StructuredShortMessage
+      [] r[1] \in {5, 15} ->   \* StructuredShortMessage (15: other data formats - soundness and value fidelity only)
            LET x == <<r[2], r[3], r[4], r[5]>>  valid == StructuredValid(x) IN
            (IF r[6] = -2 THEN {<<"C19", "deserialize-panics">>} ELSE {})
            \cup (IF r[6] = 1 /\ ~valid THEN {<<"C19", "structured-invalid-accepted">>} ELSE {})
-           \cup (IF valid /\ r[6] # 1 THEN {<<"C19", "structured-valid-rejected">>} ELSE {})
+           \cup (IF r[1] = 5 /\ valid /\ r[6] # 1 THEN {<<"C19", "structured-valid-rejected">>} ELSE {})
            \cup (IF valid /\ r[6] = 1 /\ Sub(r, 7, 4) # x THEN {<<"C19", "structured-value-changed">>} ELSE {})
       [] r[1] = 6 ->        \* ShortMessageType
            (IF r[3] = B2I(r[2] \in TypeBytes) THEN {} ELSE {<<"C19", "type-accepts-iff-valid">>})
